@@ -503,7 +503,13 @@ func hostileTokens(seed int64) (map[string][]byte, error) {
 	add("prf-not-links", "inv", func(e *envelopeParts) { e.payload["prf"] = listOf(basicnode.NewInt(1), str("x")) })
 	add("meta-null-value", "inv", func(e *envelopeParts) { e.payload["meta"] = mapNode(map[string]ipld.Node{"x": datamodel.Null}) })
 	add("args-null-value", "inv", func(e *envelopeParts) { e.payload["args"] = mapNode(map[string]ipld.Node{"x": datamodel.Null}) })
-	add("payload-not-map", "dlg", func(e *envelopeParts) {})
+	// what sits under the tag is not a map of fields at all
+	for name, n := range map[string]ipld.Node{"string": str("iss"), "int": basicnode.NewInt(1), "bytes": basicnode.NewBytes([]byte{1, 2}), "bool": basicnode.NewBool(true),
+		"null": datamodel.Null, "list": listOf(str("iss")), "float": basicnode.NewFloat(1.5)} {
+		n := n
+		add("payload-is-"+name, "dlg", func(e *envelopeParts) { e.rawPayload = n })
+		add("inv-payload-is-"+name, "inv", func(e *envelopeParts) { e.rawPayload = n })
+	}
 	// issuers with invalid key material of every codec (signature cannot verify; the point is PubKey)
 	kr := keyring{}
 	rng := rand.New(rand.NewSource(seed))
@@ -757,6 +763,31 @@ func hostilePairs() map[string][]byte {
 	out := map[string][]byte{}
 	q := func(s string) string { b, _ := json.Marshal(s); return string(b) }
 	pair := func(name, pol, data string) { out[name] = []byte(`{"d":` + data + `,"p":` + pol + `}`) }
+	// == on EQUAL container values: the comparison visits both sides once (nested maps, nested lists, wide maps, maps
+	// whose keys come in the opposite order)
+	for _, depth := range []int{48, 1000} {
+		m, l := "1", "1"
+		for i := 0; i < depth; i++ {
+			m, l = `{"a":`+m+`}`, `[`+l+`]`
+		}
+		pair(fmt.Sprintf("eq-nested-maps-%d", depth), `[["==",".v",`+m+`]]`, `{"v":`+m+`}`)
+		pair(fmt.Sprintf("eq-nested-lists-%d", depth), `[["==",".v",`+l+`]]`, `{"v":`+l+`}`)
+		pair(fmt.Sprintf("eq-nested-maps-in-not-%d", depth), `[["not",["==",".v",`+m+`]]]`, `{"v":`+m+`}`)
+	}
+	{
+		var fw, bw []string
+		for i := 0; i < 20000; i++ {
+			fw = append(fw, fmt.Sprintf(`"k%05d":%d`, i, i))
+			bw = append(bw, fmt.Sprintf(`"k%05d":%d`, 19999-i, 19999-i))
+		}
+		pair("eq-wide-maps-20000", `[["==",".v",{`+strings.Join(fw, ",")+`}]]`, `{"v":{`+strings.Join(bw, ",")+`}}`)
+		// two-entry maps nested 40 deep, the data with its keys the other way round
+		m1, m2 := "1", "1"
+		for i := 0; i < 40; i++ {
+			m1, m2 = `{"a":`+m1+`,"b":0}`, `{"b":0,"a":`+m2+`}`
+		}
+		pair("eq-nested-two-key-maps-40", `[["==",".v",`+m1+`]]`, `{"v":`+m2+`}`)
+	}
 	for _, n := range []int{4 << 10, 16 << 10, 48 << 10} {
 		tag := fmt.Sprintf("%dk", n>>10)
 		as, bs := strings.Repeat("a", n), strings.Repeat("ab", n/2)
